@@ -155,8 +155,18 @@ func (e *Engine) EnableStub(name, kind string) {
 			}
 			stv, ok := c.St.Ghost["sock:"+addr.S]
 			c.St.Events = append(c.St.Events, Event{Kind: "sock-request", Args: []Value{addr, c.Args[1], c.Args[2]}, Thr: c.Th.ID})
+			// no socket file: connect fails with ENOENT (errors.Is(err, os.ErrNotExist)); a stale file
+			// left by a killed process: ECONNREFUSED
+			dialErr := func(stale bool) Value {
+				if stale {
+					return c.E.newErrorString(c.St, StrC("dial failed: dial unix: connect: connection refused"))
+				}
+				g := c.E.Prog.ImportedPackage("os").Var("ErrNotExist")
+				inner := c.St.Load(Ptr{Obj: c.E.globalObj(c.St, g)})
+				return c.E.newWrapError(c.St, StrC("dial failed: dial unix: connect: no such file or directory"), inner)
+			}
 			if !ok {
-				return c.Return(Tuple{StrC(""), c.E.newErrorString(c.St, StrC("dial failed: connection refused"))})
+				return c.Return(Tuple{StrC(""), dialErr(false)})
 			}
 			tp := stv.(Tuple)
 			live, timeout := tp[0].(*Term), tp[1].(*Term)
@@ -164,7 +174,8 @@ func (e *Engine) EnableStub(name, kind string) {
 				panic(unsupported("vfSock with symbolic flags"))
 			}
 			if !live.B {
-				return c.Return(Tuple{StrC(""), c.E.newErrorString(c.St, StrC("dial failed: connection refused"))})
+				stale := len(tp) > 3 && tp[3].(*Term).B
+				return c.Return(Tuple{StrC(""), dialErr(stale)})
 			}
 			if timeout.B {
 				g := c.E.Prog.ImportedPackage(repoMod + "/internal/sock").Var("ErrTimeout")
